@@ -21,6 +21,14 @@ every interleaving of starts and finishes):
       still in progress stays registered when another run ends; whatever is acquired is released on every exit.
       Structural: no suspension point between the table test and the insert (two concurrent first runs would otherwise
       create two semaphores), and the semaphore entered is pinned by a local name (the table is a WeakValueDictionary).
+      Pairing on every path, cancellation edges included (`release-paired`): a `<sem>.release()` gives back a permit, so it
+      must be dominated by a *completed* `<sem>.acquire()` of the same semaphore -- in the helper's CFG (exception and
+      cancellation edges leave every await) no path from the entry may reach the release without traversing a normal
+      out-edge of an acquiring statement.  `try: await sem.acquire(); yield  finally: sem.release()` fails it: a run that
+      is cancelled while still queued in `acquire()` reaches the `finally` and releases a permit it never held, and the
+      limit grows by one per such cancellation.  A release guarded by a local constant flag that becomes true only after
+      a completed acquire is accepted.  The interpretation counts the same thing: cancelled at the acquisition, no run
+      may release (`sim:release-held`).
 * R3  `_num_concurrent_runs` is written only by `Workflow.__init__`, with the unmodified
       `num_concurrent_runs` argument.
 
@@ -32,11 +40,12 @@ callers of `workflow_run_fn`, which do not consult the limit).
 from __future__ import annotations
 
 import ast
+from pathlib import Path
 
 from ..absint import Raised, Record, Unsupported
-from ..astx import attr_writes, call_name, calls_named, dotted, enclosing_stmt, expand, last
+from ..astx import attr_writes, call_name, calls_named, dotted, enclosing_stmt, expand, facts_at, last
 from ..cfg import CFG, exprs_in_node
-from ..index import AnchorError, FuncNode, ancestors, enclosing_function, parent, qualname_of, walk_shallow
+from ..index import AnchorError, FuncNode, _set_parents, ancestors, enclosing_function, parent, qualname_of, walk_shallow
 from ..selftest import Twin
 from .c25 import Sim, run_generator  # shared helper: Interp + async-with / yield / await with exception injection
 
@@ -49,7 +58,10 @@ EXPLANATION = (
     "name): one yield; on the limited path exactly one semaphore held at the yield; concurrent runs of one instance share it; a first run registers a new Semaphore(limit); "
     "two distinct live instances never hold the same semaphore (the registry key must identify the instance: id(workflow) or the instance itself pass, workflow_name / class "
     "do not); a running run's semaphore stays registered; everything acquired is released on every exit; no suspension between table test and insert; the "
-    "entered semaphore is pinned by a local (WeakValueDictionary). R3: `_num_concurrent_runs` has exactly one writer, Workflow.__init__, storing the argument unchanged. "
+    "entered semaphore is pinned by a local (WeakValueDictionary); every `<sem>.release()` is dominated by a completed `<sem>.acquire()` of the same semaphore on the "
+    "helper's CFG including the exception/cancellation edges of the acquiring await (an acquire inside the `try` whose `finally`/handler releases gives a permit back "
+    "that a run cancelled while queued never held: the limit grows by one per cancellation), also as interpreted: cancelled at the acquisition, a run releases nothing "
+    "(planted forms in fixtures/c30/planted_release.py are analysed on every run). R3: `_num_concurrent_runs` has exactly one writer, Workflow.__init__, storing the argument unchanged. "
     "Not decided: semaphore fairness (trusted); other runtimes (observation)."
 )
 TRUSTED = ["CPython ast", "asyncio.Semaphore semantics (counter, FIFO wake-up)", "contextlib.asynccontextmanager", "id() is unique among live objects", "Workflow instances hash/compare by identity (no __eq__/__hash__ override)"]
@@ -143,6 +155,16 @@ def run(chk) -> None:
         chk.ob("C30.R2", "the semaphore that is entered is referenced by a local name for the duration (the table holds semaphores weakly)", pinned, m=mh, node=w, fn=helper,
                instance="semaphore-pinned", reason=f"`async with {ast.unparse(e)[:50]}` looks the semaphore up in a WeakValueDictionary without a strong reference")
 
+    # pairing on every path, cancellation edges included: a release is dominated by a completed acquire of the same semaphore
+    unpaired = _unpaired_releases(helper)
+    acq_sites = [x for x in walk_shallow(helper) if (isinstance(x, ast.Call) and isinstance(x.func, ast.Attribute) and x.func.attr == "acquire")
+                 or isinstance(x, (ast.AsyncWith, ast.With))]
+    chk.floor("C30.R2", "acquisition sites of the helper (`async with <sem>` or `<sem>.acquire()`)", len(acq_sites), 1)
+    chk.ob("C30.R2", "every `<sem>.release()` of the helper is dominated by a completed `<sem>.acquire()` of the same semaphore, on exception and cancellation edges too "
+           "(a run cancelled while still queued in acquire() must not give back a permit)", not unpaired, m=mh, node=(unpaired[0][0] if unpaired else helper), fn=helper,
+           instance="release-paired", reason=(unpaired[0][1] if unpaired else ""))
+    _planted_releases(chk)
+
     # ------------------------------------------------------------------ R3
     writers = []
     for mod in repo.by_rel.values():
@@ -214,6 +236,94 @@ def _table_is_weak(repo) -> bool:
     raise AnchorError(f"`BasicRuntime.__init__` does not initialise `{TABLE}`")
 
 
+def _is_method_call(x: ast.AST, attr: str) -> bool:
+    return isinstance(x, ast.Call) and isinstance(x.func, ast.Attribute) and x.func.attr == attr
+
+
+def _unpaired_releases(fn: ast.AST) -> list[tuple[ast.AST, str]]:
+    """`<R>.release()` calls of ``fn`` that some path from the entry reaches although no `<R>.acquire()` has *completed* on it.
+
+    CFG reachability from the entry with the normal out-edges of every statement that contains `<R>.acquire()` removed: what
+    stays reachable is reached either without any acquire or through the exception / cancellation edge of an acquiring
+    statement (the acquire was abandoned while waiting).  Path-sensitive on one idiom: a release under a local flag whose
+    bindings are all constants, which starts with the opposite value, and which takes the guarding value only at statements
+    that are themselves dominated by a completed acquire."""
+    cfg = CFG(fn)
+    out: list[tuple[ast.AST, str]] = []
+    rel_nodes = [(n, x) for n in cfg.nodes if n.ast is not None for x in exprs_in_node(n) if _is_method_call(x, "release")]
+    for rn, call in rel_nodes:
+        recv = dotted(call.func.value)
+        if recv is None:
+            raise AnchorError(f"C30.R2: release on `{ast.unparse(call.func.value)[:50]}` -- receiver is not a plain name/attribute chain")
+        acq = [n for n in cfg.nodes if n.ast is not None and any(_is_method_call(x, "acquire") and dotted(x.func.value) == recv for x in exprs_in_node(n))]
+        if not acq:
+            raise AnchorError(f"C30.R2: `{recv}.release()` at line {call.lineno} has no `{recv}.acquire()` in the same function (unrecognised pairing idiom)")
+        completed = [(a, lab) for a in acq for lab, _t in cfg.succ[a] if lab not in ("exc", "cancel")]
+        without = cfg.reach([cfg.entry], blocked_edges=completed)
+        if rn not in without:
+            continue
+        # flag-guarded release
+        flagged = False
+        for text, pol in sorted(facts_at(cfg, rn, expand_locals=False, _depth=0)):
+            if not text.isidentifier():
+                continue
+            consts: list | None = []
+            for t in walk_shallow(fn):
+                if not (isinstance(t, ast.Name) and t.id == text and isinstance(t.ctx, (ast.Store, ast.Del))):
+                    continue
+                st = parent(t)
+                single = (isinstance(st, ast.Assign) and len(st.targets) == 1 and st.targets[0] is t) or (isinstance(st, ast.AnnAssign) and st.target is t)
+                v = getattr(st, "value", None)
+                if not (single and isinstance(v, ast.Constant) and isinstance(v.value, bool)):
+                    consts = None  # the flag mirrors something else than "the acquire completed"
+                    break
+                consts.append((st, v.value))
+            if not consts:
+                continue
+            sets = [n for s, v in consts if v is pol for n in cfg.nodes_of(s)]
+            inits = [n for s, v in consts if v is (not pol) for n in cfg.nodes_of(s)]
+            if sets and inits and not any(n in without for n in sets) and not cfg.must_pass([cfg.entry], [rn], inits):
+                flagged = True
+        if flagged:
+            continue
+        via = [a for a in acq if any(lab in ("exc", "cancel") and (t is rn or rn in cfg.reach([t], blocked_edges=completed)) for lab, t in cfg.succ[a])]
+        where = (f"reached from `{ast.unparse(via[0].ast)[:60]}` (line {via[0].line}) through its exception/cancellation edge{' (finally copy ' + rn.tag + ')' if rn.tag else ''}"
+                 if via else "reachable without passing any acquire")
+        out.append((call, f"`{recv}.release()` at line {call.lineno} is {where}: a run that is cancelled (or fails) while still waiting in `{recv}.acquire()` gives back a permit it "
+                          f"never held, so the semaphore's counter -- the instance's limit -- grows by one per such cancellation.  Put the acquire before the `try` whose "
+                          f"finally/handler releases, or use `async with {recv}:`"))
+    # one report per release call (several finally copies share it)
+    seen: set[int] = set()
+    return [(c, r) for c, r in out if not (id(c) in seen or seen.add(id(c)))]
+
+
+PLANTED = Path(__file__).resolve().parent.parent.parent / "fixtures" / "c30" / "planted_release.py"
+
+
+def _planted_releases(chk) -> None:
+    """The helper on /repo uses `async with`, so `release-paired` has no release site there: the planted forms keep it honest."""
+    try:
+        tree = ast.parse(PLANTED.read_text(encoding="utf-8"))
+    except OSError as e:
+        raise AnchorError(f"C30.R2: planted fixture missing: {e}")
+    _set_parents(tree)
+    bad = good = 0
+    for f in tree.body:
+        if not isinstance(f, FuncNode):
+            continue
+        hits = _unpaired_releases(f)
+        if f.name.startswith("bad_"):
+            if len(hits) < 1:
+                raise AnchorError(f"C30.R2: planted unpaired release `{f.name}` is not reported (fixtures/c30/planted_release.py)")
+            bad += len(hits)
+        elif f.name.startswith("good_"):
+            if hits:
+                raise AnchorError(f"C30.R2: correct pairing `{f.name}` is reported: {hits[0][1][:120]}")
+            good += 1
+    chk.floor("C30.R2", "planted releases not dominated by a completed acquire reported on fixtures/c30/planted_release.py", bad, 4)
+    chk.floor("C30.R2", "planted correct acquire/release pairings accepted on fixtures/c30/planted_release.py", good, 4)
+
+
 def _observe_other_runtimes(chk, repo) -> None:
     others = []
     for mod in repo.by_rel.values():
@@ -237,6 +347,15 @@ class _Sim30(Sim):
     """`Sim` + `Semaphore.locked()` with asyncio's meaning (no free permit, counted over every run in progress)."""
 
     world: list  # every simulated run of the scenario (each has its own `held`)
+
+    def __init__(self, *a, **k):
+        super().__init__(*a, **k)
+        self.over_released: list = []  # semaphores this run released while it did not hold them
+
+    def _exit(self, obj) -> None:
+        if isinstance(obj, Record) and obj._cls == "Semaphore" and not any(h is obj for h in self.held):
+            self.over_released.append(obj)
+        super()._exit(obj)
 
     def e_Call(self, e, env):
         if isinstance(e.func, ast.Attribute) and e.func.attr == "locked":
@@ -289,6 +408,7 @@ def _simulate(chk, repo, m, helper: ast.AST) -> None:
         "id": lambda o: ("id-of", id(o)),
         "type": lambda o: o.__dict__["__class__"] if isinstance(o, Record) and "__class__" in o.__dict__ else ("type-of", getattr(o, "_cls", type(o).__name__)),
         "asyncio.sleep": lambda *a: None,
+        "asyncio.wait_for": lambda aw, timeout=None: aw,  # the awaited acquisition is the suspension point; a timeout is one more way it does not complete
     }
     for prim in ("Semaphore", "BoundedSemaphore"):
         hooks[f"asyncio.{prim}"] = (lambda value=1, _p=prim: Record("Semaphore", value=value, name=f"new-{_p}({value})"))
@@ -393,6 +513,13 @@ def _simulate(chk, repo, m, helper: ast.AST) -> None:
                 fail("registered", f"{where}: {len(y['table'])} entries registered for {expected} limited instance(s) with a run in progress: {list(y['table'])}")
         if sim.held:
             fail("released", f"{where}: still held after exit: {[getattr(h, 'name', h) for h in sim.held]}")
+        for r in runs:
+            if r["sim"].over_released:
+                if limit is not None and len(mine) >= limit and not bad.get("release-held", "").startswith("[queued]"):
+                    bad.pop("release-held", None)  # prefer the schedule asyncio really produces: every permit taken, the observed run is queued
+                    where = "[queued] " + where
+                fail("release-held", f"{where}: the run releases {[getattr(h, 'name', h) for h in r['sim'].over_released]} although it holds no permit of it "
+                     "(the acquisition did not complete) -- the semaphore's counter grows, one more run than the limit is admitted from then on")
         # runs that are still in progress when the observed run is over keep their registration
         for r in outer:
             so = sem_of(r)
@@ -440,6 +567,7 @@ def _simulate(chk, repo, m, helper: ast.AST) -> None:
         "registered-while-running": "the semaphore of a run still in progress stays registered when another run of the instance ends",
         "independent": f"two live instances that are equal in class, workflow_name and limit source but not in identity never share a semaphore (registry key: {keytxt})",
         "released": "whatever was acquired is released on every exit (normal, failure, cancellation at any suspension point)",
+        "release-held": "a permit is released only by a run that holds one (cancelled while still queued in the acquisition, a run releases nothing)",
     }
     for slot, text in texts.items():
         chk.ob("C30.R2", f"{text} [{cases} interpreted cases]", slot not in bad, m=m, node=helper, fn=helper, instance=f"sim:{slot}", reason=bad.get(slot, ""))
@@ -471,6 +599,14 @@ TWINS = [
     Twin("suspension between lookup and registration", _B, "                sem = asyncio.Semaphore(workflow._num_concurrent_runs)\n",
          "                await asyncio.sleep(0)\n                sem = asyncio.Semaphore(workflow._num_concurrent_runs)\n", "C30.R2"),
     Twin("manual acquire without release on failure", _B, "            async with sem:\n                yield", "            await sem.acquire()\n            yield\n            sem.release()", "C30.R2"),
+    Twin("seed form: acquire inside the try whose finally releases (cancelled while queued -> permit given back that was never held)", _B, "            async with sem:\n                yield",
+         "            try:\n                await sem.acquire()\n                yield\n            finally:\n                sem.release()", "C30.R2"),
+    Twin("variant: release in a BaseException handler of the try that also contains the acquire", _B, "            async with sem:\n                yield",
+         "            try:\n                await sem.acquire()\n                yield\n            except BaseException:\n                sem.release()\n                raise\n            sem.release()", "C30.R2"),
+    Twin("variant: timeout-wrapped acquire inside the try, release in finally", _B, "            async with sem:\n                yield",
+         "            try:\n                await asyncio.wait_for(sem.acquire(), 3600)\n                yield\n            finally:\n                sem.release()", "C30.R2"),
+    Twin("variant: `acquired` flag set before the acquire completes", _B, "            async with sem:\n                yield",
+         "            acquired = False\n            try:\n                acquired = True\n                await sem.acquire()\n                yield\n            finally:\n                if acquired:\n                    sem.release()", "C30.R2"),
     Twin("weak table lookup without a strong reference", _B, "            async with sem:\n                yield", "            del sem\n            async with self._max_concurrent_runs[workflow_id]:\n                yield", "C30.R2"),
     # ---- R3
     Twin("limit altered on the way in", _W, "self._num_concurrent_runs = num_concurrent_runs", "self._num_concurrent_runs = num_concurrent_runs and num_concurrent_runs * 2", "C30.R3"),
@@ -484,6 +620,10 @@ TWINS = [
     Twin("benign: extracted limit local", _B, "                sem = asyncio.Semaphore(workflow._num_concurrent_runs)\n",
          "                limit = workflow._num_concurrent_runs\n                sem = asyncio.Semaphore(limit)\n", None),
     Twin("benign: try/finally acquire-release", _B, "            async with sem:\n                yield", "            await sem.acquire()\n            try:\n                yield\n            finally:\n                sem.release()", None),
+    Twin("benign: acquire inside the try, release under a flag set after the acquire completed", _B, "            async with sem:\n                yield",
+         "            acquired = False\n            try:\n                await sem.acquire()\n                acquired = True\n                yield\n            finally:\n                if acquired:\n                    sem.release()", None),
+    Twin("benign: acquire in an outer try, release in the finally of an inner try around the yield only", _B, "            async with sem:\n                yield",
+         "            try:\n                await sem.acquire()\n                try:\n                    yield\n                finally:\n                    sem.release()\n            except asyncio.CancelledError:\n                raise", None),
     Twin("benign: result local at the call site", _B,
          "                return await registered.workflow_run_fn(\n                    init_state, start_event, captured_tags\n                )",
          "                result = await registered.workflow_run_fn(\n                    init_state, start_event, captured_tags\n                )\n                return result", None),
